@@ -442,7 +442,9 @@ class CMapParser(PSStackParser[PSKeyword]):
                     prefix = code[:-4]
                     vlen = len(var)
                     for i in range(end - start + 1):
-                        x = prefix + struct.pack(">L", base + i)[-vlen:]
+                        # the incremented part wraps around instead of
+                        # overflowing its (at most) four bytes
+                        x = prefix + struct.pack(">L", (base + i) & 0xFFFFFFFF)[-vlen:]
                         self.cmap.add_cid2unichr(start + i, x)
             return
 
